@@ -1,0 +1,5 @@
+//go:build !verif
+
+package metrics
+
+func verifGate(point int, loaded int64) {}
